@@ -14,6 +14,16 @@ From RV Require Import Proofs.RoundTrip.
 From RV Require Import Gen.ElisionTables.
 From RV Require Import Model.Elision.
 From RV Require Import Proofs.Elision.
+From RV Require Import Gen.NumSites.
+From RV Require Import Model.NumTrip.
+From RV Require Import Proofs.NumTrip.
+From RV Require Import Model.Tree.
+From RV Require Import Model.Writer.
+From RV Require Import Proofs.Collect.
+From RV Require Import Proofs.DefsOnce.
+From RV Require Import Gen.UnitsTables.
+From RV Require Import Model.UnitsTrip.
+From RV Require Import Proofs.UnitsTrip.
 From Coq Require Import String List Bool ZArith QArith Qabs.
 Import ListNotations.
 Local Open Scope string_scope.
@@ -299,6 +309,121 @@ Theorem C08_elision_exact_sound : forall name c0 d v,
 Proof. exact elision_exact_sound. Qed.
 Print Assumptions C08_elision_exact_sound.
 
+(* ---- numbers, lifted (second pass).  Sites: Gen/NumSites.v = every write_num call of writer.rs (6 in write_transform, 20 in the path data;
+   any other call, a coordinate printed otherwise, or another precision option is a broken tie).  The written order / letters / arities are
+   what the reading side expects: *)
+Theorem C08_num_sites_match_reader : chk_num_sites = true.
+Proof. exact num_sites_ok. Qed.
+Print Assumptions C08_num_sites_match_reader.
+
+(* the "second round trip changes nothing further" clause for numbers: writing an already written value gives the same value,
+   EVERY finite x, EVERY precision *)
+Theorem C08_write_num_idempotent : forall p x v,
+  (0 <= p)%Z -> write_num p x = WOk v -> exists v', write_num p v = WOk v' /\ (v' == v)%Q.
+Proof. exact write_num_idempotent. Qed.
+Print Assumptions C08_write_num_idempotent.
+
+(* lists of numbers: total, each entry within 1 / (2 * 10^min(p,12)), idempotent *)
+Theorem C08_nums_total : forall p l, (0 <= p)%Z -> exists vs, write_nums p l = Some vs.
+Proof. exact write_nums_total. Qed.
+Print Assumptions C08_nums_total.
+Theorem C08_nums_error : forall p l vs,
+  (0 <= p)%Z -> write_nums p l = Some vs ->
+  exists pw, nth_error pow_vec (Z.to_nat (pow_index p)) = Some pw /\
+             Forall2 (fun x v => Qabs (v - x) <= 1 / (2 * inject_Z pw))%Q l vs.
+Proof. exact write_nums_error. Qed.
+Print Assumptions C08_nums_error.
+Theorem C08_nums_idempotent : forall p l vs,
+  (0 <= p)%Z -> write_nums p l = Some vs -> exists vs', write_nums p vs = Some vs' /\ Forall2 Qeq vs' vs.
+Proof. exact write_nums_idempotent. Qed.
+Print Assumptions C08_nums_idempotent.
+
+(* transforms: what the parser reads (the identity for the elided attribute) is within the bound in all six entries *)
+Theorem C08_transform_roundtrip : forall p ts w,
+  (0 <= p)%Z -> write_transform p ts = Some w ->
+  exists pw, nth_error pow_vec (Z.to_nat (pow_index p)) = Some pw /\
+             Forall2 (fun x v => Qabs (v - x) <= 1 / (2 * inject_Z pw))%Q ts (read_transform w).
+Proof. exact write_transform_error. Qed.
+Print Assumptions C08_transform_roundtrip.
+Theorem C08_transform_total : forall p ts, (0 <= p)%Z -> exists w, write_transform p ts = Some w.
+Proof. exact write_transform_total. Qed.
+Print Assumptions C08_transform_total.
+
+(* path data of any length: same segment kinds in the same order, every coordinate within the bound; and idempotent *)
+Theorem C08_path_data_roundtrip : forall p l out,
+  (0 <= p)%Z -> write_segs p l = Some out ->
+  exists pw, nth_error pow_vec (Z.to_nat (pow_index p)) = Some pw /\
+             Forall2 (fun a b => fst a = fst b /\ Forall2 (fun x v => Qabs (v - x) <= 1 / (2 * inject_Z pw))%Q (snd a) (snd b)) l out.
+Proof. exact write_segs_error. Qed.
+Print Assumptions C08_path_data_roundtrip.
+Theorem C08_path_data_idempotent : forall p l out,
+  (0 <= p)%Z -> write_segs p l = Some out ->
+  exists out', write_segs p out = Some out' /\ Forall2 (fun a b => fst a = fst b /\ Forall2 Qeq (snd a) (snd b)) out' out.
+Proof. exact write_segs_idempotent. Qed.
+Print Assumptions C08_path_data_idempotent.
+Theorem C08_path_data_total : forall p l, (0 <= p)%Z -> exists out, write_segs p l = Some out.
+Proof. exact write_segs_total. Qed.
+Print Assumptions C08_path_data_total.
+
+(* ---- <defs> completeness for the round trip (corollary of C05_collect_complete / C05_collect_nodup over C07's writer model, both read-only):
+   every mask / clip path / pattern / gradient found by the field-by-field enumeration of the tree - at ANY position of a mask -> mask or
+   clip -> clip chain, inside pattern content, feImage sub-trees, mask / clip content, nested images, flattened text; no bound on chain length
+   or nesting (seeded C08-12) - is held exactly once by its collection and write_defs writes its element. *)
+Theorem C08_mask_written_once : forall o root m,
+  In m (reach_masks root) ->
+  count_occ N.eq_dec (map m_ptr (t_masks (with_collections root))) (m_ptr m) = 1%nat /\
+  exists m', m_ptr m' = m_ptr m /\ In m' (t_masks (with_collections root)) /\ In (write_mask o m') (write_defs o (with_collections root)).
+Proof. exact mask_written_once. Qed.
+Print Assumptions C08_mask_written_once.
+Theorem C08_mask_chain_reached : forall root g m0 m,
+  In (NGroup g) (all_group root) -> g_mask g = Some m0 -> In m (mask_chain m0) -> In m (reach_masks root).
+Proof. exact mask_chain_reached. Qed.
+Print Assumptions C08_mask_chain_reached.
+Theorem C08_clip_written_once : forall o root c,
+  In c (reach_clips root) ->
+  count_occ N.eq_dec (map c_ptr (t_clips (with_collections root))) (c_ptr c) = 1%nat /\
+  exists c', c_ptr c' = c_ptr c /\ In c' (t_clips (with_collections root)) /\ In (write_clip o c') (write_defs o (with_collections root)).
+Proof. exact clip_written_once. Qed.
+Print Assumptions C08_clip_written_once.
+Theorem C08_clip_chain_reached : forall root g c0 c,
+  In (NGroup g) (all_group root) -> g_clip g = Some c0 -> In c (clip_chain c0) -> In c (reach_clips root).
+Proof. exact clip_chain_reached. Qed.
+Print Assumptions C08_clip_chain_reached.
+Theorem C08_pattern_written_once : forall o root p,
+  In p (reach_paints root) -> is_pat p = true ->
+  count_occ N.eq_dec (map pa_ptr (t_pats (with_collections root))) (pa_ptr p) = 1%nat /\
+  exists p', pa_ptr p' = pa_ptr p /\ In p' (t_pats (with_collections root)) /\ In (write_pat o p') (write_defs o (with_collections root)).
+Proof. exact pattern_written_once. Qed.
+Print Assumptions C08_pattern_written_once.
+Theorem C08_gradient_written_once : forall o root p,
+  In p (reach_paints root) ->
+  (is_lin p = true -> count_occ N.eq_dec (map pa_ptr (t_lins (with_collections root))) (pa_ptr p) = 1%nat /\
+      exists p', pa_ptr p' = pa_ptr p /\ In (write_lin o p') (write_defs o (with_collections root))) /\
+  (is_rad p = true -> count_occ N.eq_dec (map pa_ptr (t_rads (with_collections root))) (pa_ptr p) = 1%nat /\
+      exists p', pa_ptr p' = pa_ptr p /\ In (write_rad o p') (write_defs o (with_collections root))).
+Proof. exact gradient_written_once. Qed.
+Print Assumptions C08_gradient_written_once.
+Theorem C08_filter_collected_once : forall root f,
+  In f (reach_filters root) ->
+  count_occ N.eq_dec (map f_ptr (t_filts (with_collections root))) (f_ptr f) = 1%nat /\
+  exists f', f_ptr f' = f_ptr f /\ In f' (t_filts (with_collections root)).
+Proof. exact filter_collected_once. Qed.
+Print Assumptions C08_filter_collected_once.
+
+(* ---- enum families without a tree-level table: *Units (per attribute: the writer's `def` / constant against the parser's default for the
+   absent attribute, keyword tables of both sides) and visibility (bool in the tree, keywords in the parser): Gen/UnitsTables.v *)
+Theorem C08_units_roundtrip : forall a c wdef pdef u,
+  In (a, c, wdef, pdef) units_sites -> In u (site_values (a, c, wdef, pdef)) ->
+  read_units (write_units u wdef) pdef = Some u.
+Proof. exact units_roundtrip. Qed.
+Print Assumptions C08_units_roundtrip.
+Theorem C08_units_all_complete : forall u, In u units_all.
+Proof. exact units_all_complete. Qed.
+Print Assumptions C08_units_all_complete.
+Theorem C08_visibility_roundtrip : forall b, read_visible (write_visibility b) = Some b.
+Proof. exact visibility_roundtrip. Qed.
+Print Assumptions C08_visibility_roundtrip.
+
 (* ---- non-vacuity *)
 Example C08_nv_linejoin : write_LineJoin LineJoin_Bevel = Some "bevel" /\ parse_LineJoin "bevel" = Some LineJoin_Bevel /\
                           write_LineJoin LineJoin_Miter = None /\ default_LineJoin = LineJoin_Miter.
@@ -313,3 +438,20 @@ Example C08_nv_elision : (11 <=? length elision_sites)%nat = true /\
                          written (COther "stroke.linejoin == LineJoin::Miter && !stroke.miterlimit.is_default()") 10 = false /\
                          (tol (CApprox 4 4) <= 1 # 200000)%Q.
 Proof. repeat split; vm_compute; try reflexivity; discriminate. Qed.
+Example C08_nv_numtrip : write_num 3 (20005 # 10000) = WOk (inject_Z 2001 / inject_Z 1000) /\
+                         write_num 3 (inject_Z 2001 / inject_Z 1000) = WOk (inject_Z 2001 / inject_Z 1000) /\
+                         write_transform 8 [1; 0; 0; 1; 0; 0]%Q = Some None /\
+                         write_segs 0 [(0%nat, [3 # 2; 1 # 3]%Q); (4%nat, [])] = Some [(0%nat, [inject_Z 2 / inject_Z 1; inject_Z 0 / inject_Z 1]%Q); (4%nat, [])].
+Proof. repeat split; vm_compute; reflexivity. Qed.
+(* a mask -> mask -> mask chain on a group inside the content of a pattern: the innermost mask is reached *)
+Example C08_nv_mask_chain :
+  let m3 := MD 3 13 None (G 0 false None None [] []) in
+  let m2 := MD 2 12 (Some m3) (G 0 false None None [] []) in
+  let m1 := MD 1 11 (Some m2) (G 0 false None None [] []) in
+  let inner := G 0 false None (Some m1) [] [NPath 0 true PColor PNone] in
+  let root := G 0 false None None [] [NPath 0 true (PPat 9 19 (G 0 false None None [] [NGroup inner])) PNone] in
+  In m3 (reach_masks root) /\ map m_ptr (t_masks (with_collections root)) = [1; 2; 3]%N.
+Proof. vm_compute. split; [auto 10|reflexivity]. Qed.
+Example C08_nv_units : (5 <=? length units_sites)%nat = true /\ write_units U_UserSpaceOnUse U_ObjectBoundingBox = Some "userSpaceOnUse" /\
+                       write_units U_ObjectBoundingBox U_ObjectBoundingBox = None /\ read_units None U_UserSpaceOnUse <> Some U_ObjectBoundingBox.
+Proof. repeat split; try (vm_compute; reflexivity). vm_compute. discriminate. Qed.
